@@ -4,7 +4,8 @@ that change applied (BSIM_REPO), and updates meta.json["check"].  /repo itself i
 usage: check_seeded.py [id-prefix ...] [--tier quick|thorough]"""
 import json, os, shutil, subprocess, sys, time
 tier = sys.argv[sys.argv.index("--tier") + 1] if "--tier" in sys.argv else "quick"
-want = [a for a in sys.argv[1:] if not a.startswith("--") and a not in ("quick", "thorough")]
+runs = sys.argv[sys.argv.index("--runs") + 1] if "--runs" in sys.argv else None
+want = [a for a in sys.argv[1:] if not a.startswith("--") and a not in ("quick", "thorough") and a != runs]
 base = "/verif/seeded"
 S = "/dev/shm/seeded-%07d" % os.getpid()
 bad = 0
@@ -16,19 +17,30 @@ for sid in sorted(os.listdir(base)):
     shutil.rmtree(S, ignore_errors=True)
     os.makedirs(S)
     shutil.copytree("/repo/bisturi", os.path.join(S, "bisturi"), ignore=shutil.ignore_patterns("__pycache__", "__pkts__"))
+    r = subprocess.run(["patch", "-p1", "-s", "--dry-run", "-i", os.path.join(d, "patch.diff")], cwd=S, capture_output=True, text=True)
+    applied_to = "working tree of /repo"
+    if (r.returncode != 0 or meta.get("force_base")) and meta.get("base_commit"):
+        # written against an older commit and overtaken by a later fix: use that commit's tree
+        shutil.rmtree(os.path.join(S, "bisturi"))
+        tar = subprocess.run(["git", "-C", "/repo", "archive", meta["base_commit"], "bisturi"], capture_output=True).stdout
+        subprocess.run(["tar", "-x", "-C", S], input=tar)
+        applied_to = "tree of commit " + meta["base_commit"]
     r = subprocess.run(["patch", "-p1", "-s", "-i", os.path.join(d, "patch.diff")], cwd=S, capture_output=True, text=True)
+    meta["applied_to"] = applied_to
     if r.returncode != 0:
         print("%-55s PATCH DOES NOT APPLY: %s" % (sid, r.stdout[-200:]))
         bad += 1
         continue
     t0 = time.time()
-    r = subprocess.run(["/verif/check", meta["property"], "--tier", tier], capture_output=True, text=True, cwd="/verif",
+    r = subprocess.run(["/verif/check", meta["property"], "--tier", tier] + (["--runs", runs] if runs else []), capture_output=True, text=True, cwd="/verif",
                        env=dict(os.environ, BSIM_REPO=S, BSIM_NO_EVIDENCE="1"))
     oracle = [l.strip() for l in r.stdout.splitlines() if l.strip().startswith("oracle=")]
     meta["check"] = {"tier": tier, "exit": r.returncode, "caught": r.returncode == 1, "seconds": round(time.time() - t0, 1),
                      "first_violation": oracle[0][:400] if oracle else None, "tail": r.stdout[-300:] if r.returncode != 1 else None}
-    json.dump(meta, open(os.path.join(d, "meta.json"), "w"), indent=1)
-    print("%-55s %s exit=%d %5.1fs %s" % (sid, meta["property"], r.returncode, time.time() - t0, (oracle[0][:90] if oracle else "")), flush=True)
+    if not runs and not os.environ.get("VERIF_SEED"):
+        json.dump(meta, open(os.path.join(d, "meta.json"), "w"), indent=1)
+    found_at = [l for l in r.stdout.splitlines() if l.startswith("VIOLATION")]
+    print("%-55s %s exit=%d %5.1fs %s" % (sid, meta["property"], r.returncode, time.time() - t0, (found_at[0].split("replay=")[-1].split("/")[-1] if found_at else "") + " " + (oracle[0][:90] if oracle else "")), flush=True)
     bad += r.returncode != 1
 shutil.rmtree(S, ignore_errors=True)
 print("seeded: %d not caught" % bad)
